@@ -78,7 +78,7 @@ func (w *c11World) do(kind string) (desc string) {
 	_, statErr := os.Stat(dir)
 	exists := statErr == nil
 	newName := func() string {
-		return fmt.Sprintf("%s%d.%s", pickStr(r, "a", "m", "z"), r.Intn(4), pickStr(r, "json", "yaml"))
+		return fmt.Sprintf("%s%d.%s", pickStr(r, "a", "m", "z", "a", "m", "z", ".h", "..d"), r.Intn(4), pickStr(r, "json", "yaml"))
 	}
 	specs, others := w.specFiles(dir)
 	// symbolic links live in a name space of their own (ln*.json/yaml) and are never
